@@ -21,6 +21,7 @@ import (
 	"github.com/named-data/ndnd/fw/core"
 	"github.com/named-data/ndnd/fw/dispatch"
 	"github.com/named-data/ndnd/fw/face"
+	fwmgmt "github.com/named-data/ndnd/fw/mgmt"
 	"github.com/named-data/ndnd/fw/table"
 	enc "github.com/named-data/ndnd/std/encoding"
 
@@ -67,13 +68,13 @@ func (Engine) Generate(prop string, r *kit.Rand, tier string) *kit.Scenario[Conf
 	if nops > 16 {
 		nops = 16
 	}
-	weights := []int{30, 12, 10, 6, 3, 4, 2, 28, 5}
+	weights := []int{30, 12, 10, 6, 3, 4, 2, 28, 5, 8}
 	if tier == "thorough" && r.Chance(0.08) {
 		// the quantifier's upper end: up to 16 goroutines, mostly forwarding-thread lookups around a few writers
 		// (keeps the linearizability search tractable)
 		c.Tasks = r.Range(9, 16)
 		nops = r.Range(c.Tasks, 22)
-		weights = []int{10, 4, 4, 3, 1, 2, 1, 70, 5}
+		weights = []int{10, 4, 4, 3, 1, 2, 1, 70, 5, 3}
 	}
 	for i := 0; i < nops; i++ {
 		o := Op{Task: r.Intn(c.Tasks)}
@@ -99,6 +100,10 @@ func (Engine) Generate(prop string, r *kit.Rand, tier string) *kit.Scenario[Conf
 			o.Op, o.Name = "lookup", kit.Pick(r, lookNames)
 		case 8:
 			o.Op = "list"
+		case 9:
+			o.Op, o.Name, o.Face, o.Cost = "mreg", kit.Pick(r, ribNames), uint64(r.Range(1, 3)), uint64(r.Intn(3))
+			o.Origin = kit.Pick(r, []uint64{0, 0, 128})
+			o.Flags = uint64(r.Weighted([]int{1, 6, 1, 1}))
 		}
 		sc.Ops = append(sc.Ops, o)
 	}
@@ -190,10 +195,14 @@ type mstate struct {
 	routes map[string][]route
 	fib    map[string]map[uint64]uint64
 	strat  map[string]string
+	gone   map[uint64]bool // faces that were torn down
 }
 
 func (s *mstate) clone() *mstate {
-	n := &mstate{routes: map[string][]route{}, fib: map[string]map[uint64]uint64{}, strat: map[string]string{}}
+	n := &mstate{routes: map[string][]route{}, fib: map[string]map[uint64]uint64{}, strat: map[string]string{}, gone: map[uint64]bool{}}
+	for k := range s.gone {
+		n.gone[k] = true
+	}
 	for k, v := range s.routes {
 		n.routes[k] = append([]route(nil), v...)
 	}
@@ -283,6 +292,12 @@ func (s *mstate) expectedFib() map[string]map[uint64]uint64 {
 
 func (s *mstate) key() string {
 	var sb strings.Builder
+	gs := []int{}
+	for f := range s.gone {
+		gs = append(gs, int(f))
+	}
+	sort.Ints(gs)
+	sb.WriteString(fmt.Sprintf("G%v;", gs))
 	ps := []string{}
 	for p := range s.routes {
 		ps = append(ps, p)
@@ -359,7 +374,7 @@ func (s *mstate) list() string {
 
 func (s *mstate) apply(o *Op) {
 	switch o.Op {
-	case "reg":
+	case "reg", "mreg":
 		rs := s.routes[o.Name]
 		for i := range rs {
 			if rs[i].face == o.Face && rs[i].origin == o.Origin {
@@ -376,7 +391,12 @@ func (s *mstate) apply(o *Op) {
 				return
 			}
 		}
-	case "teardown":
+	case "facegone":
+		s.gone[o.Face] = true
+	case "teardown", "cleanup":
+		if o.Op == "teardown" {
+			s.gone[o.Face] = true
+		}
 		for p, rs := range s.routes {
 			var keep []route
 			for _, r := range rs {
@@ -409,7 +429,7 @@ type pstate struct {
 
 var model = porcupine.Model{
 	Init: func() interface{} {
-		st := &mstate{routes: map[string][]route{}, fib: map[string]map[uint64]uint64{}, strat: map[string]string{}}
+		st := &mstate{routes: map[string][]route{}, fib: map[string]map[uint64]uint64{}, strat: map[string]string{}, gone: map[uint64]bool{}}
 		return pstate{st.key(), st}
 	},
 	Step: func(state, input, output interface{}) (bool, interface{}) {
@@ -422,6 +442,14 @@ var model = porcupine.Model{
 			return ps.st.strategy(o.Name) == output.(string), state
 		case "list":
 			return ps.st.list() == output.(string), state
+		case "mreg":
+			// a management registration naming a face: accepted iff the face exists at that moment
+			if output.(string) != "ok" {
+				return ps.st.gone[o.Face], state
+			}
+			if ps.st.gone[o.Face] {
+				return false, state
+			}
 		}
 		n := ps.st.clone()
 		n.apply(o)
@@ -554,7 +582,10 @@ func (e Engine) runOnce(t *testing.T, ctx *kit.Ctx, sc *kit.Scenario[Config, Op]
 	table.VerifResetGlobals()
 	table.CreateFIBTable(c.Fib)
 	face.VerifResetFaceTable()
-	for id := uint64(0); id < 1200; id++ { // every face id a scenario can have used (only the exported API, so that the table's representation can change)
+	for id := uint64(1); id <= 3; id++ { // the scenario's faces exist (management checks that before it registers a route)
+		face.FaceTable.Add(face.MakeNullLinkService(face.MakeNullTransport()))
+	}
+	for id := uint64(4); id < 1200; id++ { // every face id a scenario can have used (only the exported API, so that the table's representation can change)
 		dispatch.RemoveFace(id)
 	}
 	fib := table.FibStrategyTable
@@ -570,6 +601,8 @@ func (e Engine) runOnce(t *testing.T, ctx *kit.Ctx, sc *kit.Scenario[Config, Op]
 		s.resume[i] = make(chan struct{})
 	}
 	// what each task is doing (for the overlap rule)
+	ribLocks := make([]int, ntask)    // RIB lock acquisitions of the task's current operation
+	tearMid := make([]int, ntask)     // event number at which a task's teardown passed from the face table to the RIB
 	inRib := make([]bool, ntask)      // inside a RIB mutator
 	ribYielded := make([]bool, ntask) // ... and has passed at least one inner yield point
 
@@ -619,15 +652,46 @@ func (e Engine) runOnce(t *testing.T, ctx *kit.Ctx, sc *kit.Scenario[Config, Op]
 					inRib[ti] = true
 					table.Rib.AddEncRoute(mkName(o.Name), &table.Route{FaceID: o.Face, Origin: o.Origin, Cost: o.Cost, Flags: o.Flags})
 					inRib[ti], ribYielded[ti] = false, false
+				case "mreg":
+					// what the management module does for rib/register with a FaceId
+					inRib[ti] = true
+					ribLocks[ti], tearMid[ti] = 0, -1
+					accepted := mgmtRegister(mkName(o.Name), &table.Route{FaceID: o.Face, Origin: o.Origin, Cost: o.Cost, Flags: o.Flags})
+					inRib[ti], ribYielded[ti] = false, false
+					if accepted {
+						out = "ok"
+					} else if mid := tearMid[ti]; ribLocks[ti] >= 2 && mid >= 0 {
+						// refused after the fact: the route was registered, the face then found gone and its routes
+						// withdrawn again - two steps, each atomic, recorded as a registration and a clean-up
+						ret := s.counter
+						s.counter++
+						ops = append(ops, porcupine.Operation{ClientId: ti, Input: &Op{Task: o.Task, Op: "reg", Name: o.Name, Face: o.Face, Origin: o.Origin, Cost: o.Cost, Flags: o.Flags}, Call: int64(call), Output: nil, Return: int64(mid)},
+							porcupine.Operation{ClientId: ti, Input: &Op{Task: o.Task, Op: "cleanup", Face: o.Face}, Call: int64(mid + 1), Output: nil, Return: int64(ret)})
+						ctx.Probe("registration-withdrawn-after-face-teardown")
+						continue
+					} else {
+						out = "gone"
+					}
 				case "unreg":
 					inRib[ti] = true
 					table.Rib.RemoveRouteEnc(mkName(o.Name), o.Face, o.Origin)
 					inRib[ti], ribYielded[ti] = false, false
 				case "teardown":
+					// A teardown is two steps, each atomic: the face leaves the face table, then its routes are
+					// withdrawn. The history records them as two operations, split where the task passes the yield
+					// point between them.
 					ctx.Fault("face-teardown")
 					inRib[ti] = true
+					tearMid[ti], ribLocks[ti] = -1, -100 // (no compound registration in this operation)
 					face.FaceTable.Remove(o.Face)
 					inRib[ti], ribYielded[ti] = false, false
+					if mid := tearMid[ti]; mid >= 0 {
+						ret := s.counter
+						s.counter++
+						ops = append(ops, porcupine.Operation{ClientId: ti, Input: &Op{Task: o.Task, Op: "facegone", Face: o.Face}, Call: int64(call), Output: nil, Return: int64(mid)},
+							porcupine.Operation{ClientId: ti, Input: &Op{Task: o.Task, Op: "cleanup", Face: o.Face}, Call: int64(mid + 1), Output: nil, Return: int64(ret)})
+						continue
+					}
 				case "fibadd":
 					fib.InsertNextHopEnc(mkName(o.Name), o.Face, o.Cost)
 				case "fibrem":
@@ -826,6 +890,19 @@ func (e Engine) runOnce(t *testing.T, ctx *kit.Ctx, sc *kit.Scenario[Config, Op]
 			}
 			continue
 		}
+		if msg.tag == "rib.lock" && pick < ntask {
+			ribLocks[pick]++
+			if ribLocks[pick] == 2 { // the second RIB operation of a compound management registration starts here
+				s.counter++
+				tearMid[pick] = s.counter
+				s.counter++
+			}
+		}
+		if msg.tag == "facetable.remove.rib" && pick < ntask {
+			s.counter++
+			tearMid[pick] = s.counter
+			s.counter++
+		}
 		if parked[pick] == "fib.batch-end" {
 			inBatch[pick] = false // it was parked at the end of the batch, still holding the lock; now it has moved on
 		}
@@ -1009,7 +1086,7 @@ func linKey(ops []porcupine.Operation) string {
 	// registration/removal/face clean-up flattening into the FIB) are set aside?
 	isRib := func(o porcupine.Operation) bool {
 		k := o.Input.(*Op).Op
-		return k == "reg" || k == "unreg" || k == "teardown"
+		return k == "reg" || k == "unreg" || k == "teardown" || k == "cleanup" || k == "mreg"
 	}
 	isRead := func(o porcupine.Operation) bool {
 		k := o.Input.(*Op).Op
@@ -1033,4 +1110,10 @@ func linKey(ops []porcupine.Operation) string {
 		return "read-overlapping-rib-update"
 	}
 	return "other"
+}
+
+// mgmtRegister runs the table part of the management module's rib/register for a named face (real code:
+// fw/mgmt registerRoute - existence check, registration, re-check).
+func mgmtRegister(name enc.Name, route *table.Route) bool {
+	return fwmgmt.VerifRegisterRoute(name, route)
 }
